@@ -943,6 +943,10 @@ def wrap_post(c):
             ('quiet-call-is-the-function', Implies(g0, And(FPOST(*(_fs(S0) + _fs(S1) + [c.r])), S1.lastlen == S0.lastlen)))]
 
 
+reg(Contract('dd.bdd._store_iterator', [('value', 'opaque')], pre=lambda c: [], post=lambda c: [], ret='opaque', mgr='-', assumed=True,
+             note='assumed: returns the list of the items of a one-shot iterator, any other value unchanged; no manager is involved. It is what '
+                  'makes the arguments of a decorated call *values* (the abstract function FUNC is a function of the manager state only: the '
+                  'retried call sees the same arguments as the first attempt)'))
 reg(Contract('dd.bdd._try_to_reorder._wrapper', [('bdd', 'mgr'), ('args', 'opaque'), ('kwargs', 'opaque')], mgr='bdd',
              pre=lambda c: [('FPRE', FPRE(*_fs(c.S))), ('enc-lastlen', c.S.lastlen >= -1)], post=wrap_post, modifies=M.ALLF, ret='int',
              raises={'_NeedsReordering': Raise(when=lambda c: And(c.S0.ctx, c.S0.lastlen >= 0),
